@@ -241,3 +241,45 @@ func paramRole(f *ssa.Function, name string) ssa.Value {
 	}
 	return nil
 }
+
+// loopHeadOf: the header of the innermost loop containing block b (the nearest
+// dominator of b that is the target of a back edge from a block it dominates
+// and from which b can come back), nil when b is not in a loop.
+func loopHeadOf(b *ssa.BasicBlock) *ssa.BasicBlock {
+	for h := b; h != nil; h = h.Idom() {
+		for _, p := range h.Preds {
+			if h.Dominates(p) && (p == b || engine.Reachable(b, p)) {
+				return h
+			}
+		}
+	}
+	return nil
+}
+
+// loopBypass: inside the loop with the given head, the head can be reached
+// again from the loop body without passing through block must.
+func loopBypass(head, must *ssa.BasicBlock) bool {
+	seen := map[*ssa.BasicBlock]bool{}
+	var work []*ssa.BasicBlock
+	for _, s := range head.Succs {
+		if engine.Reachable(s, head) && s != must {
+			work = append(work, s)
+			seen[s] = true
+		}
+	}
+	for len(work) > 0 {
+		b := work[0]
+		work = work[1:]
+		for _, s := range b.Succs {
+			if s == head {
+				return true
+			}
+			if seen[s] || s == must || !engine.Reachable(s, head) {
+				continue
+			}
+			seen[s] = true
+			work = append(work, s)
+		}
+	}
+	return false
+}
